@@ -19,8 +19,8 @@ def build(tier, seed):
     ]
     obs[0].heavy = True; obs[1].skip = ['@{allocate}']
     AN = 'ipr::impl::(anonymous namespace)::'
-    it = Unit('intern', '/repo/src/impl.cxx', roots=['ipr::util::string_pool::intern', AN + 'word_if_known'],
-              names=dict(intern='ipr::util::string_pool::intern', word_if_known=AN + 'word_if_known', empty_string='ipr::String::empty_string',
+    it = Unit('intern', '/repo/src/impl.cxx', roots=['ipr::util::string_pool::intern', AN + 'word_if_known', AN + 'known_word'],
+              names=dict(intern='ipr::util::string_pool::intern', word_if_known=AN + 'word_if_known', known_word=AN + 'known_word', empty_string='ipr::String::empty_string',
                          make_string=A + 'make_string',
                          word_lt_call=(AN + '(anonymous class)::operator()', 'std_identifier'),
                          eq_call=('ipr::util::string_pool::intern(ipr::util::word_view)::(anonymous class)::operator()', 'String')))
@@ -36,6 +36,9 @@ def build(tier, seed):
            kind='K1', flags=['--unwind', '58'], replay='C03', timeout=1800, bounded=None),
     ]
     obs[-1].heavy = obs[-2].heavy = True
+    kw = Ob('C03.known_word', it, 'C03/intern.c', 'h_known_word', 'known_word(s), s a symbolic NUL-terminated spelling (<= 24 bytes): the table entry with that spelling, std::domain_error otherwise; word_if_known through its proved contract',
+            kind='K1', flags=['--unwind', '66'], defines=['WITH_KNOWN_WORD'], replay='C03', timeout=900)
+    kw.skip = ['@{word_if_known}']; obs.append(kw)
     meta = dict(sweep_family='C03', functions_under_contract=['allocate', 'make_string', 'arena_ctor', 'string_index'],
                 assumptions=['operator new returns a fresh object of the requested size (never null)',
                              'std::copy on char8_t ranges copies [first,last) to out and writes nothing else (ghost-index contract in harness/C03/arena.c)',
